@@ -362,3 +362,9 @@ for _p in sorted(_glob.glob(ROOT + '/refactorings/*.diff')):
     _name = _p.split('/')[-1][:-5]
     for _i in range(1, 21):
         pm(f'refac-{_name}-C{_i:02d}', f'C{_i:02d}', f'refactorings/{_name}.diff', 'silent', None, 'independent behaviour-preserving refactoring')
+
+# ------------------------------------------------------------------ property-breaking changes seeded by independent sub-agents (seeded/<id>/): the property's own check must fire
+import os as _os
+for _p in sorted(_glob.glob(ROOT + '/seeded/*/patch.diff')):
+    _sid = _p.split('/')[-2]
+    pm(f'seed-{_sid}', _sid.split('-')[0], f'seeded/{_sid}/patch.diff', 'fire', None, 'seeded change, confirmed by its demonstration (see seeded/%s/meta.json)' % _sid)
